@@ -280,6 +280,46 @@ def _shard_a(args):
     return res
 
 
+def _attr_names_leg():
+    """a MAPPING defines exactly its keys: a placeholder whose name happens to be an attribute of the mapping object ({keys}, {values}, {items},
+    {get}, {copy}, {__class__} ...) is undefined and stays as it is - for every public attribute name of every mapping type of the menu"""
+    import collections
+    import collections.abc
+    from taskchain.utils.data import search_and_replace_placeholders as fn
+
+    class _M(collections.abc.Mapping):
+        def __init__(self, d):
+            self.d = d
+
+        def __getitem__(self, k):
+            return self.d[k]
+
+        def __iter__(self):
+            return iter(self.d)
+
+        def __len__(self):
+            return len(self.d)
+
+    res = Result()
+    for gvname, gv in [('dict', {'A': 'a'}), ('mappingproxy', types.MappingProxyType({'A': 'a'})), ('userdict', collections.UserDict({'A': 'a'})), ('defaultdict', collections.defaultdict(str, {'A': 'a'})),
+                       ('ordereddict', collections.OrderedDict({'A': 'a'})), ('abc-mapping', _M({'A': 'a'}))]:
+        names = [n for n in dir(gv) if not n.startswith('_')] + ['__class__', '__len__', '__doc__', 'd', 'data', 'default_factory']
+        before = len(gv)
+        for n in names:
+            s = '{%s}/{A}' % n
+            res.add('evaluations')
+            res.add('transitions')
+            try:
+                got = fn(s, gv)
+            except Exception as e:  # noqa
+                got = f'{type(e).__name__}: {e}'
+            if str(got) != '{%s}/a' % n:
+                res.violations.append(Violation('search_and_replace_placeholders wrong-text', f'{s!r} with a {gvname} that defines only A: got {str(got)[:120]!r}, reference {"{%s}/a" % n!r}', {'kind': 'attr-names'}))
+        if len(gv) != before:
+            res.violations.append(Violation('search_and_replace_placeholders changes global_vars', f'{gvname}: {before} -> {len(gv)} keys after looking up undefined names', {'kind': 'attr-names'}))
+    return res
+
+
 # ------------------------------------------------------------------------------------------------ part B
 def config_world():
     P, bc = families.P, families.by_class
@@ -533,6 +573,7 @@ def run(tier, seed):
     res.coverage['strings'] = len(strings)
     res.coverage['states'] = len(strings) * len(gv_menu())
     res.merge(_part_b(tier))
+    res.merge(_attr_names_leg())
     res.coverage['traces_validated_against_impl'] = res.coverage['evaluations']
     res.coverage['exhaustive'] = True
     res.coverage['rule'] = (f'every string of length <= {5 if tier == "quick" else 7} over {ALPHABET} plus newline/long/unicode cases x {len(gv_menu())} global_vars (dict, object, module) '
@@ -547,6 +588,8 @@ def replay(case):
     import tcv
 
     tcv.quiet_library()
+    if case['kind'] == 'attr-names':
+        return _attr_names_leg().violations
     if case['kind'] == 'fn':
         from taskchain.utils.data import search_and_replace_placeholders as fn
         gv = dict(gv_menu())[case['gv']]
